@@ -529,6 +529,56 @@ func c10Families(tier string) []explore.Family {
 		}
 	}})
 
+	// --- switch-like chains: every condition compares the SAME subject with a literal, literals may repeat; the
+	// first comparison that holds wins (3..5 comparisons over {1, 2, 'a', "1"}, with and without else, 6 subjects)
+	swLits := []string{"1", "2", "'a'", "\"1\"", "1.0"}
+	swSubjects := []struct {
+		name string
+		v    any
+		eq   map[string]bool
+	}{{"1", 1, map[string]bool{"1": true, "1.0": true}}, {"2", 2, map[string]bool{"2": true}}, {"'a'", "a", map[string]bool{"'a'": true}}, {"\"1\"", "1", map[string]bool{"\"1\"": true}},
+		{"3", 3, nil}, {"int64(1)", int64(1), map[string]bool{"1": true, "1.0": true}}, {"1.0", 1.0, map[string]bool{"1": true, "1.0": true}}, {"nil", nil, nil}}
+	for nc := 3; nc <= 5; nc++ {
+		nc := nc
+		cnt := int64(len(swSubjects) * 2)
+		for j := 0; j < nc; j++ {
+			cnt *= int64(len(swLits))
+		}
+		fams = append(fams, explore.Family{Name: fmt.Sprintf("switch-like-chain-%d", nc), Count: cnt, Run: func(i int64, r *explore.Rec) {
+			rx := radix{i}
+			hasElse, sj := rx.next(2) == 1, swSubjects[rx.next(len(swSubjects))]
+			var sb strings.Builder
+			want := ""
+			for j := 0; j < nc; j++ {
+				lit := swLits[rx.next(len(swLits))]
+				kw := "elsif"
+				if j == 0 {
+					kw = "if"
+				}
+				sb.WriteString(fmt.Sprintf("{%% %s x == %s %%}B%d", kw, lit, j))
+				if want == "" && sj.eq[lit] {
+					want = fmt.Sprintf("B%d", j)
+				}
+			}
+			if hasElse {
+				sb.WriteString("{% else %}BE")
+				if want == "" {
+					want = "BE"
+				}
+			}
+			sb.WriteString("{% endif %}")
+			src := sb.String()
+			r.Eval()
+			r.Transition()
+			r.Trace()
+			o := Render(c10.eng, src, map[string]any{"x": sj.v})
+			r.Class("switch-like/" + want)
+			if o.Panic != nil || o.Err != nil || o.Out != want {
+				r.Violation("wrong-branch:switch-like-chain", map[string]any{"template": src, "x": sj.name}, want, o.String())
+			}
+		}})
+	}
+
 	// --- when-values that are not scalars: a range literal, a list or a map never EQUALS a number or a string inside
 	// it (case compares by ==, it does not test membership)
 	nsWhens := []string{"(1..5)", "(3..3)", "(0..0)", "(a..b)", "l", "m", "l.first", "(1..5), 7", "7, (1..5)"}
